@@ -91,6 +91,7 @@ type Exec struct {
 	noMergeMemo map[*ssa.Function]bool
 	initDone    map[*ssa.Function]bool
 	boundOK     map[int]bool
+	reachSeen   map[string]bool
 	boundPC     map[int][]*Term
 }
 
